@@ -24,6 +24,84 @@ def is_recursive(c):
     return False
 
 
+def json_to_wire(text):
+    """Shape wire of a JSON text (kinds only): s i f b n | a n ... | o n hexkey value ..."""
+    class F(float):
+        pass
+
+    def conv(x):
+        if isinstance(x, list) and x and isinstance(x[0], tuple) and x[0][0] == "\0pairs":
+            ms = x[1:]
+            return "o %d" % len(ms) + "".join(" %s %s" % (k.encode().hex() or "-", conv(v)) for k, v in ms)
+        if isinstance(x, list):
+            return "a %d" % len(x) + "".join(" " + conv(v) for v in x)
+        if x is None:
+            return "n"
+        if isinstance(x, bool):
+            return "b"
+        if isinstance(x, F):
+            return "f"
+        if isinstance(x, int):
+            return "i"
+        if isinstance(x, str):
+            return "s"
+        raise ValueError(x)
+    v = json.loads(text, object_pairs_hook=lambda ps: [("\0pairs", None)] + list(ps), parse_float=F)
+    return conv(v)
+
+
+def has_rule_form(node):
+    k = node[0]
+    if k in ("tref", "orform"):
+        return True
+    if k == "arr":
+        return any(has_rule_form(x) for x in node[1])
+    if k == "obj":
+        return any(has_rule_form(x) for _, _, x in node[1])
+    return False
+
+
+def example_model_stream(ctx, st, graphs):
+    """Example() of the library vs the extracted model of the builder (Schema/Example.v): same JSON shape, on the rule-free skeletons of the type graphs"""
+    import check_c03 as C3
+    if not st.get("model"):
+        return
+    ml, il = [], []
+    for names, env, root, _ in graphs:
+        if has_rule_form(root) or any(has_rule_form(env[nm]) for nm in names):
+            continue
+        try:
+            env2 = {nm: C3.strip_node(env[nm]) for nm in names}
+            root2 = C3.strip_node(root)
+            ml.append("%s ; %s" % (C3.machine_wire(env2, names, root2), " ; ".join("%d %s" % (i, C3.machine_wire(env2, names, env2[nm])) for i, nm in enumerate(names))))
+        except C3.NoWire:
+            continue
+        il.append(json.dumps({"schema": C3.print_node(env2, root2), "types": [[nm, C3.print_node(env2, env2[nm])] for nm in names], "ops": [["check"], ["example"]]}))
+    if not ml:
+        return
+    mo = vc.model_parallel("example_model", ml)
+    io = vc.impl_isolating(["schema"], il, 2)
+    n = fb = 0
+    for m, o, l in zip(mo, io, il):
+        r = json.loads(o)
+        if r[0] != "ok" or not r[1].startswith("X:"):
+            continue
+        n += 1
+        ctx.evaluations += 1
+        text = bytes.fromhex(r[1][2:]).decode("utf-8")
+        mv, mode = m.rsplit(" ", 1)
+        fb += mode == "fallback"
+        try:
+            got = json_to_wire(text)
+        except Exception:
+            got = "NOT-JSON"
+        if got != mv and len(ctx.violations) < 40:
+            c = json.loads(l)
+            ctx.report("Example() = %s (shape %s), the model of the builder gives shape %s (%s); schema %r types %r" % (text[:100], got[:80], mv[:80], mode, c["schema"][:80], [t[1][:40] for t in c["types"]][:4]),
+                       "c15model:" + l, {"schema": c["schema"], "types": c["types"], "example": text, "model": m}, case={"schema": c["schema"]}, no_input=True)
+    ctx.extra["example_model_cases"] = {"n": n, "fallback": fb}
+
+
 def run(ctx):
     st = vc.prepare(ctx)
     if not st["impl"]:
@@ -86,6 +164,7 @@ def run(ctx):
         g3.append((names, env, root, None))
     for names, env, root, _ in g3:
         cases.append(("c03-graph", {"schema": C3.print_node(env, root), "types": [[nm, C3.print_node(env, env[nm])] for nm in names]}, None, "cutoff"))
+    example_model_stream(ctx, st, g3)
     lines = [json.dumps(dict(c, ops=[["check"], ["example"], ["valex"], ["exampleagain"]])) for _, c, _, _ in cases]
     outs = vc.impl_isolating(["schema"], lines, 4)
     nchk = 0
